@@ -9,6 +9,8 @@ import Qentem.Proofs.StrToNumSafe
 import Qentem.Proofs.StrToNumClosed
 import Qentem.Proofs.StrToNumExpPath
 import Qentem.Proofs.StrToNumNegIter
+import Qentem.Proofs.StrToNumPrefix
+import Qentem.Proofs.StrToNumFrac
 /-! C09 — text to number: integers exact, reals within one ulp, out-of-range rejected. -/
 namespace Qentem.Props.C09
 open Qentem.StrToNum Qentem.Round Qentem.Generated.StrToNum
@@ -431,7 +433,7 @@ theorem real_within_one_ulp_pos (c : List Nat) (o e : Nat) (sign : List Nat) (d1
     exact Nat.lt_of_lt_of_le this (Nat.pow_le_pow_right (by decide) (by simp; omega))
   have hk : k < 10 ^ 8 := Nat.lt_of_lt_of_le (decVal_lt_pow ks hks) (Nat.pow_le_pow_right (by decide) hk8)
   exact realResult_pos _ v n k fin hv0 (Nat.lt_of_lt_of_le hvlt (by decide)) (by simpa [n] using decVal_ge d1 xs h1)
-    (by omega) hk (by omega)
+    (by omega) (Nat.lt_of_lt_of_le hk (by decide)) (by omega)
 
 /-- non-vacuity and tightness: `1e23` is one ulp from the correctly rounded value;
 `9007199254740993e0` (2^53+1, an exact tie) is rounded up instead of to even; `17976931348623158e292`
@@ -461,7 +463,7 @@ this needs the rational-valued analogue of `raw_close` (binade crossing in both 
 subnormal branch of `negFinish`) and is **not** done, so `real_within_one_ulp` stays an open
 `Prop` for negative net exponents and is searched by the oracle. -/
 theorem negScale_error_bound (num x : Nat) (hn : num < 2 ^ 64) (hx : x ≤ 2 ^ 20) :
-    ∃ b S k, negScale num x = some (b, x + 64 + S) ∧ k ≤ x / 27 + 1 ∧
+    ∃ b S k, negScale num x = some (b, x + 64 + S) ∧ k ≤ x / 27 + 1 ∧ S ≤ 64 * (x / 27 + 1) ∧
       b * 5 ^ x * 2 ^ 61 ≤ num * 2 ^ (64 + S) * (2 ^ 61 + k) ∧
       num * 2 ^ (64 + S) * 2 ^ 61 ≤ (b + k) * 5 ^ x * (2 ^ 61 + k) :=
   negScale_error num x hn hx
@@ -470,5 +472,283 @@ theorem negScale_error_bound (num x : Nat) (hn : num < 2 ^ 64) (hx : x ≤ 2 ^ 2
 example : negScale 1 5 = some (12089258196146291748, 5 + 64 + 11) ∧
     12089258196146291748 * 5 ^ 5 * 2 ^ 61 ≤ 1 * 2 ^ (64 + 11) * (2 ^ 61 + 1) ∧
     1 * 2 ^ (64 + 11) * 2 ^ 61 ≤ (12089258196146291748 + 1) * 5 ^ 5 * (2 ^ 61 + 1) := by decide
+
+
+/-! ### A digit run that reaches `end_offset` (for the JSON prefix-rejection proofs)
+
+`[-] digits` occupying exactly `[o, e)`: the converter either rejects (`-` alone, the empty text,
+leading zeros, out of range) or consumes everything — `0` → Natural 0, `-0` → Real −0, a value that
+fits → Natural/Integer (`int_exact_*`), anything longer → the real path — always with
+`offset = e`. It never stops in the middle of the digits. -/
+theorem strToNum_digits_to_end (c : List Nat) (o e : Nat) (neg : Bool) (ds : List Nat) (he : e < 2 ^ 32)
+    (hds : AllDigits ds) (hu : unitsAt c e o ((if neg then [45] else []) ++ ds))
+    (hend : o + b2n neg + ds.length = e) :
+    ∃ r, strToNum c o e = some r ∧ (r.kind = .notANumber ∨ r.offset = e) := by
+  have hu' := (unitsAt_append c e (if neg then [45] else []) ds o).1 hu
+  have hlen : (if neg then [45] else ([] : List Nat)).length = b2n neg := by cases neg <;> simp [b2n]
+  rw [hlen] at hu'
+  cases ds with
+  | nil =>
+    -- only the sign (or nothing at all)
+    cases neg with
+    | false =>
+      simp [b2n] at hend; subst hend
+      exact ⟨⟨.notANumber, 0, o⟩, by simp [strToNum], Or.inl rfl⟩
+    | true =>
+      simp only [if_true, b2n] at hu' hend
+      have h45 := hu'.1.1
+      have ho := rd_lt h45
+      refine ⟨⟨.notANumber, 0, o + 1⟩, ?_, Or.inl rfl⟩
+      unfold strToNum
+      simp only [ho, if_true, h45]
+      unfold afterSign
+      simp [show ¬ (o + 1 < e) by simp at hend; omega]
+  | cons d1 xs =>
+    have hd1 : isDigit d1 = true := hds d1 (by simp)
+    have hf : d1 ≠ 45 ∧ d1 ≠ 43 := by simp [isDigit] at hd1; omega
+    have hs : (if neg then [45] else ([] : List Nat)) = [] ∨ (if neg then [45] else ([] : List Nat)) = [43] ∨
+        (if neg then [45] else ([] : List Nat)) = [45] := by cases neg <;> simp
+    have hu1 : unitsAt c e o ((if neg then [45] else []) ++ [d1]) :=
+      (unitsAt_append c e _ [d1] o).2 ⟨hu'.1, by rw [hlen]; exact hu'.2.1, trivial⟩
+    have hdec : decide ((if neg then [45] else ([] : List Nat)) = [45]) = neg := by cases neg <;> simp
+    rw [strToNum_after_sign c o e _ d1 hs hu1 hf, hlen, hdec]
+    have h0 : rd c e (o + b2n neg) = some d1 := hu'.2.1
+    simp only [List.length_cons] at hend
+    by_cases hnz : isNonZeroDigit d1 = true
+    · have hdig : digitsOn c e (o + b2n neg + 1) e := by
+        have := digitsOn_of_unitsAt c e xs (o + b2n neg + 1) (fun y hy => hds y (by simp [hy])) hu'.2.2
+        rw [show o + b2n neg + 1 + xs.length = e by omega] at this; exact this
+      obtain ⟨r, h1, h2⟩ := afterSign_digits_to_end c e neg (o + b2n neg) d1 he h0 hnz hdig
+      exact ⟨r, h1, Or.inr h2⟩
+    · have h48 : d1 = 48 := by simp [isDigit] at hd1; simp [isNonZeroDigit] at hnz; omega
+      subst h48
+      cases xs with
+      | nil =>
+        simp at hend
+        have := afterSign_zero c e neg (o + b2n neg) he h0 (Or.inl (by omega))
+        rw [this]
+        cases neg
+        · exact ⟨_, rfl, Or.inr (by simp; omega)⟩
+        · exact ⟨_, rfl, Or.inr (by simp; omega)⟩
+      | cons d2 ys =>
+        have hd2 : isDigit d2 = true := hds d2 (by simp)
+        rw [afterSign_leadingZero c e neg (o + b2n neg) d2 h0 hu'.2.2.1 hd2]
+        exact ⟨_, rfl, Or.inl rfl⟩
+
+/-- lone `-`, `-0`, `0`, a 25-digit run: rejected resp. consumed to the end -/
+example : strToNum [45] 0 1 = some ⟨.notANumber, 0, 1⟩ := by decide
+example : strToNum [45, 48] 0 2 = some ⟨.real, 2 ^ 63, 2⟩ := by decide
+example : (strToNum [49,50,51,52,53,54,55,56,57,48,49,50,51,52,53,54,55,56,57,48,49,50,51,52,53] 0 25).map (·.offset) = some 25 := by decide
+
+
+/-! ### Negative-exponent numerals with an integer mantissa: within one ulp (proved)
+
+`[+-]? d₁…d_n (e|E) - k₁…k_j`, `d₁ ≠ 0`, `n ≤ 19`, 1..8 exponent digits, with `2^(k/27) ≤ 16·v`: every
+mantissa when `k ≤ 134`, every mantissa `≥ 257` up to the underflow limit (for smaller mantissas with
+larger exponents the proved pipeline error is not small enough — those stay with the open
+`real_within_one_ulp` and the oracle). The value is `v / 10^k`.
+
+* whole numeral consumed;
+* `k > n + 324`: NotANumber — and then `v/10^k < 2^-1074`, below the smallest subnormal;
+* otherwise `Real`, sign = text, magnitude pattern within **one ulp** of `nearestMag v (10^k)`
+  (round-half-even to binary64, gradual underflow included). -/
+theorem real_within_one_ulp_negexp (c : List Nat) (o e : Nat) (sign : List Nat) (d1 : Nat) (xs : List Nat) (m : Nat)
+    (ks : List Nat) (he : e < 2 ^ 32)
+    (hs : sign = [] ∨ sign = [43] ∨ sign = [45]) (h1 : isNonZeroDigit d1 = true) (hxs : AllDigits xs)
+    (hlen : xs.length ≤ 18) (hm : m = 101 ∨ m = 69)
+    (hks : AllDigits ks) (hk0 : ks ≠ []) (hk8 : ks.length ≤ 8)
+    (hu : unitsAt c e o (sign ++ (d1 :: xs ++ [m] ++ [45] ++ ks)))
+    (hend : endsAt c e (o + sign.length + 1 + xs.length + 1 + 1 + ks.length) isDigit)
+    (hvk : 2 ^ (decVal ks / 27) ≤ 16 * decVal (d1 :: xs)) (hkpos : decVal ks ≠ 0) :
+    let v := decVal (d1 :: xs)
+    let k := decVal ks
+    let n := xs.length + 1
+    let fin := o + sign.length + 1 + xs.length + 1 + 1 + ks.length
+    let signBit := if decide (sign = [45]) then 0x8000000000000000 else 0
+    (k > n + 324 ∧ strToNum c o e = some ⟨.notANumber, v, fin⟩ ∧ v * 2 ^ 1074 < 10 ^ k) ∨
+    (k ≤ n + 324 ∧ ∃ p, strToNum c o e = some ⟨.real, p ||| signBit, fin⟩ ∧ p < 2 ^ 63 ∧
+        ulpDist p (nearestMag v (10 ^ k)) ≤ 1) := by
+  intro v k n fin signBit
+  have hdig := isNonZeroDigit_isDigit h1
+  have hf : d1 ≠ 45 ∧ d1 ≠ 43 := by simp [isDigit] at hdig; omega
+  have hu' := (unitsAt_append c e sign (d1 :: xs ++ [m] ++ [45] ++ ks) o).1 hu
+  have hu1 : unitsAt c e o (sign ++ [d1]) := (unitsAt_append c e sign [d1] o).2 ⟨hu'.1, hu'.2.1, trivial⟩
+  rw [strToNum_after_sign c o e sign d1 hs hu1 hf]
+  rw [afterSign_exp_neg c e _ (o + sign.length) d1 xs m ks he h1 hxs hlen hm hks hk0 hk8 hu'.2 hend]
+  have hvlt : v < 10 ^ n := decVal_lt_pow (d1 :: xs) (fun y hy => by
+      rcases List.mem_cons.1 hy with h | h
+      · subst h; exact hdig
+      · exact hxs y h)
+  have hv64 : v < 2 ^ 64 :=
+    Nat.lt_of_lt_of_le hvlt (Nat.le_trans (Nat.pow_le_pow_right (by decide) (show n ≤ 19 by omega)) (by decide))
+  have hk : k < 10 ^ 8 := Nat.lt_of_lt_of_le (decVal_lt_pow ks hks) (Nat.pow_le_pow_right (by decide) hk8)
+  have hdec : decide (decVal ks ≠ 0) = true := by simp [hkpos]
+  rw [hdec]
+  have hv0 : 0 < v := Nat.lt_of_lt_of_le (Nat.pow_pos (by decide)) (decVal_ge d1 xs h1)
+  exact realResult_neg _ v n k fin hv0 (fun _ => hvk) hv64 hvlt (by omega) (Nat.lt_of_lt_of_le hk (by decide))
+
+/-- `12345e-3`, `-5000e-310` (subnormal), `999e-400` (below the smallest subnormal: rejected) -/
+example : (strToNum [49,50,51,52,53,101,45,51] 0 8).map (fun r => (r.kind, ulpDist (r.bits % 2 ^ 63) (nearestMag 12345 (10 ^ 3)))) = some (.real, 0) := by decide
+example : (strToNum [45,53,48,48,48,101,45,51,49,48] 0 10).map (fun r => (r.kind, r.bits / 2 ^ 63, ulpDist (r.bits % 2 ^ 63) (nearestMag 5000 (10 ^ 310)))) = some (.real, 1, 0) := by decide +kernel
+example : (strToNum [57,57,57,101,45,52,48,48] 0 8).map (·.kind) = some .notANumber := by decide
+
+
+/-! ### Numerals with a fraction part: `d₁… . digits [(e|E) [+-] k]` (proved)
+
+`ClassOutcome neg v X FLAG fin res` (Proofs/StrToNumFrac.lean) is the C09 statement for one numeral
+with mantissa `v` and net decimal exponent `10^(−X)` (`FLAG`) or `10^X`: `res` is some result whose
+offset is `fin`; it is NotANumber only if the value is above every finite double resp. below the
+smallest subnormal; otherwise it is a `Real` with the text's sign whose magnitude pattern is within
+**one ulp** of `nearestMag` of the exact value.
+
+Class: first digit non-zero, the mantissa including its dot fits the 19-unit window (≤ 18 digits),
+the fraction is not the single digit `0` (`1.0` takes the "just zero at the end" branch and is left to
+the oracle), exponent of 1..8 digits. Without an exponent every such numeral is covered; with one,
+the side condition `2^(X/27) ≤ 16·v` applies to negative net exponents (all mantissas for
+`X ≤ 134`, mantissas `≥ 257` always). -/
+theorem real_within_one_ulp_frac_end (c : List Nat) (o e : Nat) (sign : List Nat) (d1 : Nat) (xs ys : List Nat)
+    (he : e < 2 ^ 32) (hs : sign = [] ∨ sign = [43] ∨ sign = [45]) (h1 : isNonZeroDigit d1 = true)
+    (hxs : AllDigits xs) (hys : AllDigits ys) (hy0 : ys ≠ []) (hy48 : ys ≠ [48]) (hlen : xs.length + ys.length ≤ 17)
+    (hu : unitsAt c e o (sign ++ (d1 :: xs ++ [46] ++ ys)))
+    (hend : endsAt c e (o + sign.length + 1 + xs.length + 1 + ys.length) contReal) :
+    ClassOutcome (decide (sign = [45])) (decVal (d1 :: xs ++ ys)) ys.length true
+      (o + sign.length + 1 + xs.length + 1 + ys.length) (strToNum c o e) := by
+  have hdig := isNonZeroDigit_isDigit h1
+  have hf : d1 ≠ 45 ∧ d1 ≠ 43 := by simp [isDigit] at hdig; omega
+  have hu' := (unitsAt_append c e sign (d1 :: xs ++ [46] ++ ys) o).1 hu
+  have hu1 : unitsAt c e o (sign ++ [d1]) := (unitsAt_append c e sign [d1] o).2 ⟨hu'.1, hu'.2.1, trivial⟩
+  have hylen : 0 < ys.length := by cases ys with
+    | nil => exact absurd rfl hy0
+    | cons a b => simp
+  have hQe : o + sign.length + 1 + xs.length + 1 + ys.length ≤ e := by
+    rcases hend with h | ⟨x, hx, _⟩
+    · omega
+    · exact Nat.le_of_lt (rd_lt hx)
+  have hstop : o + sign.length + 1 + xs.length + 1 + ys.length = e ∨
+      ∃ x, rd c e (o + sign.length + 1 + xs.length + 1 + ys.length) = some x ∧ isDigit x = false ∧ x ≠ 46 := by
+    rcases hend with h | ⟨x, hx, hc⟩
+    · exact Or.inl h
+    · simp only [contReal, Bool.or_eq_false_iff, beq_eq_false_iff_ne] at hc
+      exact Or.inr ⟨x, hx, hc.1.1, hc.1.2⟩
+  rw [strToNum_after_sign c o e sign d1 hs hu1 hf]
+  rw [afterSign_frac c e _ (o + sign.length) d1 xs ys he h1 hxs hys hy0 hy48 hlen hu'.2 hstop]
+  rw [finishReal_end c e _ _ _ _ _ false true _ hQe hend (xs.length + 1 + ys.length) ys.length
+    (by simp only [b2n, Bool.not_false, Bool.and_self, if_true]
+        rw [sub32_sub32 _ _ 1 (by omega) (by omega)]; omega)
+    (by simp only [Bool.false_eq_true, if_false, if_true]
+        rw [sub32_sub32 _ _ 1 (by omega) (by omega)]; omega)
+    (by omega)]
+  have hne : netExp false 0 false ys.length = (ys.length, true) := by
+    unfold netExp; simp; omega
+  rw [hne]
+  have hall : AllDigits (d1 :: (xs ++ ys)) := by
+    intro y hy
+    simp only [List.mem_cons, List.mem_append] at hy
+    rcases hy with h | h | h
+    · subst h; exact hdig
+    · exact hxs y h
+    · exact hys y h
+  have hv0 : 0 < decVal (d1 :: (xs ++ ys)) :=
+    Nat.lt_of_lt_of_le (Nat.pow_pos (by decide)) (decVal_ge d1 (xs ++ ys) h1)
+  have hvhi := decVal_lt_pow (d1 :: (xs ++ ys)) hall
+  have hnlen : (d1 :: (xs ++ ys)).length = xs.length + 1 + ys.length := by simp; omega
+  rw [hnlen] at hvhi
+  have hvlo : 10 ^ (xs.length + 1 + ys.length - 1) ≤ decVal (d1 :: (xs ++ ys)) := by
+    have := decVal_ge d1 (xs ++ ys) h1
+    rw [show xs.length + 1 + ys.length - 1 = (xs ++ ys).length by simp]; exact this
+  have hv64 : decVal (d1 :: (xs ++ ys)) < 2 ^ 64 :=
+    Nat.lt_of_lt_of_le hvhi (Nat.le_trans (Nat.pow_le_pow_right (by decide) (show xs.length + 1 + ys.length ≤ 19 by omega)) (by decide))
+  have := realResult_class (decide (sign = [45])) (decVal (d1 :: (xs ++ ys))) (xs.length + 1 + ys.length) ys.length true
+    (o + sign.length + 1 + xs.length + 1 + ys.length) hv0 hv64 hvlo hvhi (by omega) (by omega) (by omega)
+    (fun _ _ => by
+      have : ys.length / 27 = 0 := by omega
+      rw [this]; omega)
+  simpa using this
+
+/-- `3.14`, `-12.5,` in a buffer, `123456789.123456789` (18 digits) -/
+example : (strToNum [51,46,49,52] 0 4).map (fun r => (r.kind, r.offset, ulpDist (r.bits % 2 ^ 63) (nearestMag 314 (10 ^ 2)))) = some (.real, 4, 0) := by decide
+example : (strToNum [91,45,49,50,46,53,44] 1 7).map (fun r => (r.kind, r.offset, r.bits / 2 ^ 63)) = some (.real, 6, 1) := by decide
+
+
+theorem real_within_one_ulp_frac_exp (c : List Nat) (o e : Nat) (sign : List Nat) (d1 : Nat) (xs ys : List Nat)
+    (m : Nat) (es ks : List Nat)
+    (he : e < 2 ^ 32) (hs : sign = [] ∨ sign = [43] ∨ sign = [45]) (h1 : isNonZeroDigit d1 = true)
+    (hxs : AllDigits xs) (hys : AllDigits ys) (hy0 : ys ≠ []) (hy48 : ys ≠ [48]) (hlen : xs.length + ys.length ≤ 17)
+    (hm : m = 101 ∨ m = 69) (hes : es = [] ∨ es = [43] ∨ es = [45]) (hks : AllDigits ks) (hk0 : ks ≠ [])
+    (hk8 : ks.length ≤ 8)
+    (hu : unitsAt c e o (sign ++ (d1 :: xs ++ [46] ++ ys) ++ [m] ++ (es ++ ks)))
+    (hend : endsAt c e (o + sign.length + 1 + xs.length + 1 + ys.length + 1 + es.length + ks.length) isDigit)
+    (hcond : (netExp false (decVal ks) (decide (es = [45])) ys.length).2 = true →
+      (netExp false (decVal ks) (decide (es = [45])) ys.length).1 ≤ xs.length + 1 + ys.length + 324 →
+      2 ^ ((netExp false (decVal ks) (decide (es = [45])) ys.length).1 / 27) ≤ 16 * decVal (d1 :: xs ++ ys)) :
+    ClassOutcome (decide (sign = [45])) (decVal (d1 :: xs ++ ys))
+      (netExp false (decVal ks) (decide (es = [45])) ys.length).1
+      (netExp false (decVal ks) (decide (es = [45])) ys.length).2
+      (o + sign.length + 1 + xs.length + 1 + ys.length + 1 + es.length + ks.length) (strToNum c o e) := by
+  have hdig := isNonZeroDigit_isDigit h1
+  have hf : d1 ≠ 45 ∧ d1 ≠ 43 := by simp [isDigit] at hdig; omega
+  have hA := (unitsAt_append c e (sign ++ (d1 :: xs ++ [46] ++ ys) ++ [m]) (es ++ ks) o).1 hu
+  have hB := (unitsAt_append c e (sign ++ (d1 :: xs ++ [46] ++ ys)) [m] o).1 hA.1
+  have hu' := (unitsAt_append c e sign (d1 :: xs ++ [46] ++ ys) o).1 hB.1
+  have hu1 : unitsAt c e o (sign ++ [d1]) := (unitsAt_append c e sign [d1] o).2 ⟨hu'.1, hu'.2.1, trivial⟩
+  have hQm : rd c e (o + sign.length + 1 + xs.length + 1 + ys.length) = some m := by
+    have := hB.2.1
+    simp only [List.length_append, List.length_cons, List.length_nil] at this
+    rw [show o + sign.length + 1 + xs.length + 1 + ys.length = o + (sign.length + (xs.length + 1 + (0 + 1) + ys.length)) by omega]
+    exact this
+  have hexpu : unitsAt c e (o + sign.length + 1 + xs.length + 1 + ys.length + 1) (es ++ ks) := by
+    have := hA.2
+    simp only [List.length_append, List.length_cons, List.length_nil] at this
+    rw [show o + sign.length + 1 + xs.length + 1 + ys.length + 1 =
+      o + (sign.length + (xs.length + 1 + (0 + 1) + ys.length) + (0 + 1)) by omega]
+    exact this
+  have hmd : isDigit m = false := by rcases hm with h | h <;> subst h <;> decide
+  have hm46 : m ≠ 46 := by omega
+  have hylen : 0 < ys.length := by cases ys with
+    | nil => exact absurd rfl hy0
+    | cons a b => simp
+  have hQlt := rd_lt hQm
+  rw [strToNum_after_sign c o e sign d1 hs hu1 hf]
+  rw [afterSign_frac c e _ (o + sign.length) d1 xs ys he h1 hxs hys hy0 hy48 hlen hu'.2 (Or.inr ⟨m, hQm, hmd, hm46⟩)]
+  rw [finishReal_exp c e _ _ _ _ _ false true _ m es ks hQm hm (by omega) he hes hks hk0 hk8 hexpu hend
+    (xs.length + 1 + ys.length) ys.length
+    (by simp only [b2n, Bool.not_false, Bool.and_self, if_true]
+        rw [sub32_sub32 _ _ 1 (by omega) (by omega)]; omega)
+    (by simp only [Bool.false_eq_true, if_false, if_true]
+        rw [sub32_sub32 _ _ 1 (by omega) (by omega)]; omega)
+    (by omega)]
+  have hall : AllDigits (d1 :: (xs ++ ys)) := by
+    intro y hy
+    simp only [List.mem_cons, List.mem_append] at hy
+    rcases hy with h | h | h
+    · subst h; exact hdig
+    · exact hxs y h
+    · exact hys y h
+  have hv0 : 0 < decVal (d1 :: (xs ++ ys)) :=
+    Nat.lt_of_lt_of_le (Nat.pow_pos (by decide)) (decVal_ge d1 (xs ++ ys) h1)
+  have hvhi := decVal_lt_pow (d1 :: (xs ++ ys)) hall
+  have hnlen : (d1 :: (xs ++ ys)).length = xs.length + 1 + ys.length := by simp; omega
+  rw [hnlen] at hvhi
+  have hvlo : 10 ^ (xs.length + 1 + ys.length - 1) ≤ decVal (d1 :: (xs ++ ys)) := by
+    have := decVal_ge d1 (xs ++ ys) h1
+    rw [show xs.length + 1 + ys.length - 1 = (xs ++ ys).length by simp]; exact this
+  have hv64 : decVal (d1 :: (xs ++ ys)) < 2 ^ 64 :=
+    Nat.lt_of_lt_of_le hvhi (Nat.le_trans (Nat.pow_le_pow_right (by decide) (show xs.length + 1 + ys.length ≤ 19 by omega)) (by decide))
+  have hk : decVal ks < 10 ^ 8 := Nat.lt_of_lt_of_le (decVal_lt_pow ks hks) (Nat.pow_le_pow_right (by decide) hk8)
+  have hX : (netExp false (decVal ks) (decide (es = [45])) ys.length).1 < 2 ^ 31 := by
+    unfold netExp
+    split
+    · simp; omega
+    · split <;> simp <;> omega
+  have := realResult_class (decide (sign = [45])) (decVal (d1 :: (xs ++ ys))) (xs.length + 1 + ys.length)
+    (netExp false (decVal ks) (decide (es = [45])) ys.length).1 (netExp false (decVal ks) (decide (es = [45])) ys.length).2
+    (o + sign.length + 1 + xs.length + 1 + ys.length + 1 + es.length + ks.length) hv0 hv64 hvlo hvhi (by omega) (by omega) hX
+    (by simpa using hcond)
+  simpa using this
+
+/-- `1.25e3` (net exponent +1), `6.02e-5`, `-9.99e-330` (below the smallest subnormal: rejected) -/
+example : (strToNum [49,46,50,53,101,51] 0 6).map (fun r => (r.kind, r.offset, ulpDist (r.bits % 2 ^ 63) (nearestMag (125 * 10 ^ 1) 1))) = some (.real, 6, 0) := by decide
+example : (strToNum [54,46,48,50,101,45,53] 0 7).map (fun r => (r.kind, r.offset, ulpDist (r.bits % 2 ^ 63) (nearestMag 602 (10 ^ 7)))) = some (.real, 7, 0) := by decide
+example : (strToNum [45,57,46,57,57,101,45,51,51,48] 0 10).map (·.kind) = some .notANumber := by decide
 
 end Qentem.Props.C09
